@@ -16,6 +16,7 @@ import TypedpyModel.Drive.Stub
 import TypedpyModel.Drive.Convert
 import TypedpyModel.Drive.Errors
 import TypedpyModel.Drive.Sched
+import TypedpyModel.Drive.Pairs
 open Lean (Json)
 
 def dispatch (suite : String) (j : Json) : Except String Json :=
@@ -34,6 +35,7 @@ def dispatch (suite : String) (j : Json) : Except String Json :=
   | "convert" => Typedpy.Drive.Convert.run j
   | "errors" => Typedpy.Drive.Errors.run j
   | "sched" => Typedpy.Drive.Sched.run j
+  | "pairs" => Typedpy.Drive.Pairs.run j
   | s => .error s!"unknown suite {s}"
 
 def handle (line : String) : String :=
